@@ -287,10 +287,15 @@ def run_c07(desc, stats):
 def run_c08(desc, stats):
     out = []
     opt = desc["optimizer"]
-    faults = []
-    if desc.get("abort_first_at"):
-        faults = [{"kind": "objective_raise", "at": desc["abort_first_at"]}]
-    with Session(desc["seed"], faults=faults) as s:
+    with Session(desc["seed"]) as s:
+        # the reference - a freshly constructed instance - runs first, in the still pristine process, so that state
+        # leaking through class attributes or module globals (shared by all instances) cannot contaminate it too
+        y = _cls(desc)(_cfg(desc))
+        s.set_ambient("obs")
+        r2 = s.call(y, tasks.build_task(desc["task"]), entropy_label="obs")
+        if desc.get("abort_first_at"):
+            # fault variant: the first earlier run on the used instance is aborted by a failing objective evaluation
+            s.fp.raise_at = [s.n_obj + desc["abort_first_at"]]
         x = _cls(desc)(_cfg(desc, desc.get("history_config")))
         task_obs = tasks.build_task(desc["task"])
         aborted = False
@@ -308,9 +313,6 @@ def run_c08(desc, stats):
             x.set_config_parameters(copy.deepcopy(desc["config"]))
         s.set_ambient("obs")
         r1 = s.call(x, task_obs, entropy_label="obs")
-        y = _cls(desc)(_cfg(desc))
-        s.set_ambient("obs")
-        r2 = s.call(y, tasks.build_task(desc["task"]), entropy_label="obs")
         stats["steps"] = r2.steps
         stats["digest"] = s.sim.digest()
         stats["counters"] = dict(s.sim.counters)
